@@ -148,6 +148,17 @@ CHECKS["C15"] = dict(
     ref="6 (C15)", technique="Coq proof (finite table facts by computation, lifted to all version texts by a splitter lemma) + generated-expression evaluation and model correspondence",
     note="Whole-expression theorems exist for GitHub; Snyk and GitLab expressions are modelled and checked by correspondence and direct evaluation (the clause-level splitter theorem covers their tables). Assumes C11 of the scheme.")
 
+CHECKS["C16"] = dict(
+    text="Theorems: the model of the vers-text parser (remove_spaces, split, constraint parsing, validation, sort, VersionRange construction) is total and every error value it "
+         "returns is one of the declared kinds; the simplification walk returns within its fuel bound 2n on every list; each modelled version constructor (generic, legacy openssl, "
+         "ebuild, alpine, deb, semver family) returns a value or the invalid-version error on every string. These are structural-recursion / explicit-fuel models, so termination "
+         "is part of Coq's acceptance. On the implementation every public parsing entry point (all version classes, vers text, all native and advisory parsers) is run on grammar, "
+         "near-pair, small-alphabet, malformed, non-ASCII and long repetitive inputs and every outcome is classified value / declared error / internal error; model error kinds are "
+         "compared with the implementation's; running time on eight repetitive families is measured in forked children with a hard limit and a growth-exponent fit.",
+    ref="6 (C16)", technique="Coq proof (totality of fuelled / structural models with declared error values) + outcome classification and timing measurement of every parsing entry point",
+    note="PARTIAL: 'running time polynomial in the input length' of the CPython implementation (regex engine, recursion limit) cannot be exhibited by a Gallina model; it is measured "
+         "(growth exponent, hard timeout), named as a measurement. Native parsers are classified on the implementation only. Known findings: maven RecursionError on deeply nested text.")
+
 PENDING = {}
 
 
